@@ -17,6 +17,7 @@ import (
 	"strings"
 	"sync"
 	"sync/atomic"
+	"syscall"
 	"testing"
 	"time"
 
@@ -211,6 +212,26 @@ func TestVerifC17Child(t *testing.T) {
 		failPct := c17Env("VERIF_C17_FAILPCT", 10)
 		bigPct := c17Env("VERIF_C17_BIGPCT", 5)
 		ctxPct := c17Env("VERIF_C17_CTXPCT", 8)
+		// graceful shutdown with writers in flight: after that many acks a goroutine calls
+		// Engine.Close while the writers go on; the process dies right after Close returned, so the
+		// files are what a service leaves behind that exits after Close
+		closeAfter := int64(c17Env("VERIF_C17_CLOSE_AFTER", 0))
+		var closing atomic.Bool
+		closingCh := make(chan struct{})
+		closeNow := make(chan struct{}, 1)
+		var closeMu sync.Mutex
+		if closeAfter > 0 {
+			go func() {
+				<-closeNow
+				closeMu.Lock() // never released: the other Close path must not run
+				closing.Store(true)
+				close(closingCh)
+				err := e.Close(context.Background())
+				say("closed %v\n", err)
+				_ = syscall.Kill(os.Getpid(), syscall.SIGKILL)
+				select {}
+			}()
+		}
 		var acks atomic.Int64
 		stop := make(chan struct{})
 		var stopOnce sync.Once
@@ -300,6 +321,11 @@ func TestVerifC17Child(t *testing.T) {
 					case kind != 0:
 						say("ERR %s failing callback returned nil\n", short)
 						return
+					case err != nil && closing.Load():
+						// the engine is shutting down: refusing is legitimate, but a refused write
+						// must leave nothing behind
+						say("closefail %s\n", short)
+						return
 					case err != nil:
 						say("ERR %s %s\n", short, strings.ReplaceAll(err.Error(), "\n", " | "))
 						stopOnce.Do(func() { close(stop) })
@@ -317,7 +343,11 @@ func TestVerifC17Child(t *testing.T) {
 							}
 						}
 						say("ack %s\n", short)
-						if acks.Add(1) >= quota {
+						n := acks.Add(1)
+						if closeAfter > 0 && n == closeAfter {
+							closeNow <- struct{}{}
+						}
+						if n >= quota && closeAfter == 0 {
 							stopOnce.Do(func() { close(stop) })
 						}
 					}
@@ -334,6 +364,8 @@ func TestVerifC17Child(t *testing.T) {
 				defer rg.Done()
 				for {
 					select {
+					case <-closingCh:
+						return
 					case <-stop:
 						return
 					default:
@@ -362,6 +394,8 @@ func TestVerifC17Child(t *testing.T) {
 				defer rg.Done()
 				for {
 					select {
+					case <-closingCh:
+						return
 					case <-stop:
 						return
 					default:
@@ -384,6 +418,7 @@ func TestVerifC17Child(t *testing.T) {
 			}()
 		}
 		wg.Wait()
+		closeMu.Lock()
 		stopOnce.Do(func() { close(stop) })
 		rg.Wait()
 		err = e.Close(context.Background())
